@@ -114,3 +114,25 @@ pub fn run(tier: Tier) -> i32 {
     drop(scratch);
     rep.finish(coverage)
 }
+
+/// `./run replay <file>` for kind "hex"
+pub fn replay(v: &serde_json::Value) -> i32 {
+    let scratch = Scratch::new("c07replay");
+    let writer_code = v["writer"].as_str() == Some("code");
+    let len = v["len"].as_u64().unwrap_or(0) as usize;
+    let pat = v["pattern"].as_u64().unwrap_or(0) as u8;
+    let other = v["other_len"].as_u64().unwrap_or(0) as usize;
+    println!("write_{}_hex of a {}-byte image (pattern {}, other image {} bytes)", if writer_code { "code" } else { "eeprom" }, len, pat, other);
+    println!("recorded : {}", v["observed"]);
+    match check_one(&scratch.path, 0, writer_code, len, pat, other) {
+        Some((kind, detail)) => {
+            println!("now      : {} — {}", kind, detail);
+            println!("REPRODUCED (the written file still does not reproduce the image)");
+            1
+        }
+        None => {
+            println!("now      : the written file decodes to exactly the image");
+            0
+        }
+    }
+}
